@@ -52,15 +52,15 @@ Section LoopFree.
   (** without loops every probe event is outside a loop *)
   Lemma loop_free_flags :
     (forall s env pos oc env' pos' tr, loop_free_s s = true -> exec_stmt o fuel false s env pos = (oc, env', pos', tr) ->
-       Forall (fun e : event => snd e = false) tr /\ oc = ONormal) /\
+       Forall (fun e : event => snd e = false) tr) /\
     (forall r env pos oc env' pos' tr, loop_free_r r = true -> exec_rest o fuel false r env pos = (oc, env', pos', tr) ->
-       Forall (fun e : event => snd e = false) tr /\ oc = ONormal) /\
+       Forall (fun e : event => snd e = false) tr) /\
     (forall b env pos oc env' pos' tr, loop_free_b b = true -> exec_block o fuel false b env pos = (oc, env', pos', tr) ->
-       Forall (fun e : event => snd e = false) tr /\ oc = ONormal).
+       Forall (fun e : event => snd e = false) tr).
   Proof.
     apply syntax_ind.
-    - intros y l env pos oc env' pos' tr _ H. cbn in H. inversion H. split; [constructor | reflexivity].
-    - intros id y env pos oc env' pos' tr _ H. cbn in H. inversion H. split; [constructor; [reflexivity | constructor] | reflexivity].
+    - intros y l env pos oc env' pos' tr _ H. cbn in H. inversion H. constructor.
+    - intros id y env pos oc env' pos' tr _ H. cbn in H. inversion H. constructor; [reflexivity | constructor].
     - intros c t IHt r IHr env pos oc env' pos' tr Hl H. cbn [loop_free_s] in Hl. apply andb_true_iff in Hl. destruct Hl.
       rewrite exec_if in H. destruct (eval o c env pos) as [v p]. destruct v; [eapply IHt | eapply IHr]; eassumption.
     - intros c b _ env pos oc env' pos' tr Hl. discriminate Hl.
@@ -68,16 +68,25 @@ Section LoopFree.
     - intros b _ c env pos oc env' pos' tr Hl. discriminate Hl.
     - intros a z b _ env pos oc env' pos' tr Hl. discriminate Hl.
     - intros c b _ env pos oc env' pos' tr Hl. discriminate Hl.
-    - intros env pos oc env' pos' tr _ H. cbn in H. inversion H. split; [constructor | reflexivity].
+    - intros c env pos oc env' pos' tr _ H. rewrite exec_assert in H.
+      destruct (eval o c env pos) as [v p]. destruct v; inversion H; constructor.
+    - intros e c b IHb env pos oc env' pos' tr Hl H. cbn [loop_free_s] in Hl. rewrite exec_returnif in H.
+      destruct (eval o c env pos) as [v p]. destruct v.
+      + dres (exec_block o fuel false b env p) as oc1 e1 p1 tr1 E1. pose proof (IHb _ _ _ _ _ _ Hl E1) as G.
+        destruct oc1; inversion H; subst; exact G.
+      + inversion H. constructor.
+    - intros env pos oc env' pos' tr _ H. cbn in H. inversion H. constructor.
     - intros b IHb env pos oc env' pos' tr Hl H. rewrite exec_relse in H. eapply IHb; eassumption.
     - intros c t IHt r IHr env pos oc env' pos' tr Hl H. cbn [loop_free_r] in Hl. apply andb_true_iff in Hl. destruct Hl.
       rewrite exec_relif in H. destruct (eval o c env pos) as [v p]. destruct v; [eapply IHt | eapply IHr]; eassumption.
-    - intros env pos oc env' pos' tr _ H. cbn in H. inversion H. split; [constructor | reflexivity].
+    - intros env pos oc env' pos' tr _ H. cbn in H. inversion H. constructor.
     - intros s IHs b IHb env pos oc env' pos' tr Hl H. cbn [loop_free_b] in Hl. apply andb_true_iff in Hl. destruct Hl as [Hl1 Hl2].
       rewrite exec_bcons in H. dres (exec_stmt o fuel false s env pos) as oc1 e1 p1 tr1 E1.
-      destruct (IHs _ _ _ _ _ _ Hl1 E1) as [G1 G2]. subst oc1.
-      dres (exec_block o fuel false b e1 p1) as oc2 e2 p2 tr2 E2. cbn in H. inversion H; subst.
-      destruct (IHb _ _ _ _ _ _ Hl2 E2) as [G3 G4]. split; [apply Forall_app; split; assumption | exact G4].
+      pose proof (IHs _ _ _ _ _ _ Hl1 E1) as G1. destruct oc1.
+      + dres (exec_block o fuel false b e1 p1) as oc2 e2 p2 tr2 E2. cbn in H. inversion H; subst.
+        apply Forall_app. split; [exact G1 | eapply IHb; eassumption].
+      + inversion H; subst. exact G1.
+      + inversion H; subst. exact G1.
   Qed.
 End LoopFree.
 
@@ -88,7 +97,7 @@ Theorem narrowing_sound_lf : forall p o fuel oc env' pos' tr,
     exists t, In (id, false, t) (infer_var p x) /\ has v t = true /\ has_tag (tag_of v) t = true.
 Proof.
   intros p o fuel oc env' pos' tr Hlf Hrun id x v fl Hin.
-  destruct ((proj2 (proj2 (loop_free_flags o fuel))) _ _ _ _ _ _ _ Hlf Hrun) as [HF _].
+  pose proof ((proj2 (proj2 (loop_free_flags o fuel))) _ _ _ _ _ _ _ Hlf Hrun) as HF.
   rewrite Forall_forall in HF. pose proof (HF _ Hin) as Hfl. cbn in Hfl. subst fl.
   destruct (run_sound p x o fuel oc env' pos' tr ((proj2 (proj2 (loop_free_ok x))) _ Hlf) Hrun id v Hin) as [t [Ht Hh]].
   exists t. split; [exact Ht|]. split; [exact Hh|].
@@ -147,6 +156,16 @@ Section OracleExt.
     - intros b _ c inl env pos Hl. discriminate Hl.
     - intros a z b _ inl env pos Hl. discriminate Hl.
     - intros c b _ inl env pos Hl. discriminate Hl.
+    - intros c inl env pos _ H. cbn [opq_s] in H |- *. rewrite !exec_assert.
+      destruct (eval_ext o1 o2 c env pos H) as [E B]. rewrite <- E.
+      destruct (eval o1 c env pos) as [v p]. cbn [snd] in B. destruct v; (split; [reflexivity | unfold pos_of; cbn; lia]).
+    - intros e c b IHb inl env pos Hl H. cbn [loop_free_s] in Hl. cbn [opq_s] in H |- *. rewrite !exec_returnif.
+      destruct (eval_ext o1 o2 c env pos) as [E B]; [intros i Hi; apply H; lia|]. rewrite <- E.
+      destruct (eval o1 c env pos) as [v p]. cbn [snd] in B. destruct v.
+      + destruct (IHb inl env p Hl) as [E2 B2]; [intros i Hi; apply H; lia|]. rewrite <- E2.
+        dres (exec_block o1 fuel inl b env p) as oc1 e1 p1 tr1 E1. unfold pos_of in *. cbn in *.
+        destruct oc1; (split; [reflexivity | cbn; lia]).
+      + split; [reflexivity | unfold pos_of; cbn; lia].
     - intros inl env pos _ _. cbn. split; [reflexivity | lia].
     - intros b IHb inl env pos Hl H. rewrite !exec_relse. cbn [opq_r] in *. apply IHb; assumption.
     - intros c t IHt r IHr inl env pos Hl H. cbn [loop_free_r] in Hl. apply andb_true_iff in Hl. destruct Hl as [Hl1 Hl2].
